@@ -24,3 +24,14 @@ func VerifMmapInfo(f File) (size, mmapSize int64, dataLen int) {
 	}
 	return -1, -1, -1
 }
+
+// VerifOpenHandles counts the open handles of all files of the in-memory file
+// system (the analogue of open descriptors / mappings).
+func VerifOpenHandles() int {
+	m := Mem.(*memFS)
+	n := 0
+	for _, f := range m.files {
+		n += f.refs
+	}
+	return n
+}
